@@ -116,6 +116,10 @@ func (k msgServer) ClaimUndelegation(goCtx context.Context, msg *types.MsgClaimU
 		return nil, types.ErrUndelegationNotFound
 	}
 
+	if undelegation.Address != msg.Sender {
+		return nil, types.ErrNotUndelegationOwner
+	}
+
 	if uint64(ctx.BlockTime().Unix()) < undelegation.Expiry {
 		return nil, types.ErrNotEnoughTimePassed
 	}
